@@ -152,13 +152,30 @@ pub open spec fn fits_u8(v: int) -> bool { 0 <= v <= 255 }
 
 pub trait ToPrimitive {
     spec fn tp_val(&self) -> int;
-    fn to_i64(&self) -> (ret: Option<i64>) ensures ret == (if fits_i64(self.tp_val()) { Some(self.tp_val() as i64) } else { None });
-    fn to_u64(&self) -> (ret: Option<u64>) ensures ret == (if fits_u64(self.tp_val()) { Some(self.tp_val() as u64) } else { None });
-    fn to_i128(&self) -> (ret: Option<i128>) ensures ret == (if fits_i128(self.tp_val()) { Some(self.tp_val() as i128) } else { None });
-    fn to_u128(&self) -> (ret: Option<u128>) ensures ret == (if fits_u128(self.tp_val()) { Some(self.tp_val() as u128) } else { None });
-    fn to_usize(&self) -> (ret: Option<usize>) ensures ret == (if fits_usize(self.tp_val()) { Some(self.tp_val() as usize) } else { None });
-    fn to_i32(&self) -> (ret: Option<i32>) ensures ret == (if fits_i32(self.tp_val()) { Some(self.tp_val() as i32) } else { None });
-    fn to_u8(&self) -> (ret: Option<u8>) ensures ret == (if fits_u8(self.tp_val()) { Some(self.tp_val() as u8) } else { None });
+    /// whether conversion to an unsigned type is attempted at all (false for a negative decimal)
+    spec fn tp_unsigned_ok(&self) -> bool;
+    /// precondition of the conversions (scale bound for decimals; true for integers)
+    spec fn tp_req(&self) -> bool;
+    fn to_i64(&self) -> (ret: Option<i64>) requires self.tp_req() ensures ret == (if fits_i64(self.tp_val()) { Some(self.tp_val() as i64) } else { None });
+    fn to_u64(&self) -> (ret: Option<u64>) requires self.tp_req() ensures ret == (if self.tp_unsigned_ok() && fits_u64(self.tp_val()) { Some(self.tp_val() as u64) } else { None });
+    fn to_i128(&self) -> (ret: Option<i128>) requires self.tp_req() ensures ret == (if fits_i128(self.tp_val()) { Some(self.tp_val() as i128) } else { None });
+    fn to_u128(&self) -> (ret: Option<u128>) requires self.tp_req() ensures ret == (if self.tp_unsigned_ok() && fits_u128(self.tp_val()) { Some(self.tp_val() as u128) } else { None });
+}
+
+/// num_bigint::ToBigInt
+pub trait ToBigInt {
+    spec fn to_bigint_req(&self) -> bool;
+    spec fn to_bigint_val(&self) -> int;
+    fn to_bigint(&self) -> (ret: Option<BigInt>)
+        requires self.to_bigint_req()
+        ensures ret.is_some() && ret.unwrap()@ == self.to_bigint_val();
+}
+
+/// provided methods of num_traits::ToPrimitive used by the crate on integers only
+pub trait ToPrimitiveExt: ToPrimitive {
+    fn to_usize(&self) -> (ret: Option<usize>) requires self.tp_req() ensures ret == (if fits_usize(self.tp_val()) { Some(self.tp_val() as usize) } else { None });
+    fn to_i32(&self) -> (ret: Option<i32>) requires self.tp_req() ensures ret == (if fits_i32(self.tp_val()) { Some(self.tp_val() as i32) } else { None });
+    fn to_u8(&self) -> (ret: Option<u8>) requires self.tp_req() ensures ret == (if fits_u8(self.tp_val()) { Some(self.tp_val() as u8) } else { None });
 }
 
 impl Zero for BigInt {
@@ -183,20 +200,28 @@ impl One for BigUint {
 }
 impl ToPrimitive for BigInt {
     open spec fn tp_val(&self) -> int { self@ }
+    open spec fn tp_unsigned_ok(&self) -> bool { true }
+    open spec fn tp_req(&self) -> bool { true }
     #[verifier::external_body] fn to_i64(&self) -> (ret: Option<i64>) { unimplemented!() }
     #[verifier::external_body] fn to_u64(&self) -> (ret: Option<u64>) { unimplemented!() }
     #[verifier::external_body] fn to_i128(&self) -> (ret: Option<i128>) { unimplemented!() }
     #[verifier::external_body] fn to_u128(&self) -> (ret: Option<u128>) { unimplemented!() }
+}
+impl ToPrimitiveExt for BigInt {
     #[verifier::external_body] fn to_usize(&self) -> (ret: Option<usize>) { unimplemented!() }
     #[verifier::external_body] fn to_i32(&self) -> (ret: Option<i32>) { unimplemented!() }
     #[verifier::external_body] fn to_u8(&self) -> (ret: Option<u8>) { unimplemented!() }
 }
 impl ToPrimitive for BigUint {
     open spec fn tp_val(&self) -> int { self@ as int }
+    open spec fn tp_unsigned_ok(&self) -> bool { true }
+    open spec fn tp_req(&self) -> bool { true }
     #[verifier::external_body] fn to_i64(&self) -> (ret: Option<i64>) { unimplemented!() }
     #[verifier::external_body] fn to_u64(&self) -> (ret: Option<u64>) { unimplemented!() }
     #[verifier::external_body] fn to_i128(&self) -> (ret: Option<i128>) { unimplemented!() }
     #[verifier::external_body] fn to_u128(&self) -> (ret: Option<u128>) { unimplemented!() }
+}
+impl ToPrimitiveExt for BigUint {
     #[verifier::external_body] fn to_usize(&self) -> (ret: Option<usize>) { unimplemented!() }
     #[verifier::external_body] fn to_i32(&self) -> (ret: Option<i32>) { unimplemented!() }
     #[verifier::external_body] fn to_u8(&self) -> (ret: Option<u8>) { unimplemented!() }
